@@ -383,12 +383,15 @@ def r_addpoint_program(ctx):
     trip = params_of(fn)[1]
     n_runs = 0
     bad = None
-    for n in (1, 2, 3):
+    for n, zero in [(n0, z0) for n0 in (1, 2, 3) for z0 in (False, True)]:
         for classes in _it.product((0, 1, 2), repeat=n):
             n_runs += 1
             fobjs = [SymObj("Function", label="f%d" % (k + 1)) for k in range(n)]
             ws = [Rat.sym("w%d" % (k + 1)) for k in range(n)]
             dd = dict(zip(fobjs, ws))
+            if zero:
+                # a term whose weight is (or has cancelled to) zero is still a key of the decomposition until it is pruned: it takes part in nothing
+                dd = dict([(SymObj("Function", label="f0 (weight 0)"), Rat(0))] + list(dd.items()))
             lists = ([], [], [])
             for k, c0 in enumerate(classes):
                 lists[c0].append((fobjs[k], ws[k]))
@@ -403,6 +406,8 @@ def r_addpoint_program(ctx):
                     v0 = it.ev(node.args[0])
                     if v0 is dd:
                         log.append(("prune", None))
+                    if isinstance(v0, dict):
+                        return {k0: w0 for k0, w0 in v0.items() if not (isinstance(w0, Rat) and w0.is_zero())}
                     return v0
                 if nm == SEPARATE:
                     log.append(("separate", None))
@@ -422,7 +427,7 @@ def r_addpoint_program(ctx):
                 return NotImplemented
             env = {trip: (x, G, F), "self._is_leaf": False, "self.decomposition_dict": dd, "self.list_of_points": [], "self.list_of_stationary_points": []}
             it = IndexInterp(env, on_call=on_call)
-            label = "%d term(s) classified %s" % (n, list(classes))
+            label = "%d term(s) classified %s%s" % (n, list(classes), " and one more term of weight 0" if zero else "")
             try:
                 it.run(fn.body)
             except AnalysisError as e:
